@@ -5,7 +5,7 @@ import json, os, subprocess, sys, shutil, xml.etree.ElementTree as ET
 d = sys.argv[1].rstrip("/")
 meta = json.load(open(f"{d}/meta.json"))
 prop = meta["property"]
-WT = "/tmp/mut/verify"
+WT = os.environ.get("MUT_WT", "/tmp/mut/verify")
 def sh(cmd, **kw):
     return subprocess.run(cmd, shell=True, capture_output=True, text=True, **kw)
 if not os.path.isdir(WT):
@@ -19,10 +19,10 @@ if ap.returncode != 0:
 r1 = subprocess.run(["/venv/bin/python", f"{d}/demo.py"], env=env, capture_output=True, text=True, cwd=WT)
 tests_ok = None
 if "--no-tests" not in sys.argv:
-    subprocess.run(f"cd {WT} && PYTHONPATH={WT}/src /venv/bin/python -m pytest -q -p no:cacheprovider --timeout=900 --continue-on-collection-errors --junitxml=/tmp/mut/verify_j.xml > /dev/null 2>&1", shell=True)
+    subprocess.run(f"cd {WT} && PYTHONPATH={WT}/src /venv/bin/python -m pytest -q -p no:cacheprovider --timeout=900 --continue-on-collection-errors --junitxml=" + WT + "_j.xml > /dev/null 2>&1", shell=True)
     b = json.load(open('/root/.vp/BASELINE.json'))
     res = {}
-    for tc in ET.parse('/tmp/mut/verify_j.xml').iter('testcase'):
+    for tc in ET.parse(WT + '_j.xml').iter('testcase'):
         res[tc.get('classname') + '::' + tc.get('name')] = not any(c.tag in ('failure', 'error', 'skipped') for c in tc)
     broken = [s for s in b['stable_pass'] if not res.get(s)]
     tests_ok = not broken
